@@ -57,7 +57,7 @@ def model_check(tier):
     menu = MC_MENU[:3] if tier == 'quick' else MC_MENU
     _, res, _ = gen.run_gen('mc', menu, reps=[('fixed', 1), ('fixed', 2)], acts=('NewCircuit', 'AddOp', 'AddSub', 'Apply', 'CopyCirc'),
                             max_circs=2, max_objs=objs, max_steps=50, base='MCCircuit', invariants=('WF', 'SnapOK'),
-                            properties=('UnrollProps', 'NTimesT', 'Independence'), workers=16, view='MCView', timeout=1500)
+                            properties=('UnrollProps', 'NTimesT', 'Independence', 'CopyFaithful'), workers=16, view='MCView', timeout=1500)
     return res
 
 
@@ -519,7 +519,7 @@ def run(pid, tier):
         'sources': [{k: s[k] for k in s if k not in ('programs', 'traces', 'labels')} | {'used': len(s['programs']) + len(s.get('traces', []))} for s in sources],
         'clause_failures_all_properties': per_clause, 'twin_runs': twin_stats,
         'mc': {'module': 'MCCircuit', 'distinct_states': mc.distinct, 'generated': mc.generated,
-               'invariants': ['WF', 'SnapOK'], 'action_properties': ['UnrollProps', 'NTimesT', 'Independence']},
+               'invariants': ['WF', 'SnapOK'], 'action_properties': ['UnrollProps', 'NTimesT', 'Independence', 'CopyFaithful']},
     })
     if uninterp:
         v.notes.append('UNINTERPRETABLE traces (TLC could not evaluate them): %s' % [good[i] for i, _ in uninterp][:10])
